@@ -487,7 +487,7 @@ pub fn run(cfg: &Cfg, rep: &mut Report) -> PropMeta {
         });
     }
     // (2) boundary product + random single-word
-    let n_sw = cfg.n(40_000, 2_000_000) as u64;
+    let n_sw = cfg.n(300_000, 4_000_000) as u64;
     run_cases(cfg, "single", n_sw, rep, |i, rng, rep| {
         let q = boundary_moduli(rng);
         let Some(m) = modulus_constants(cfg, "single", i, rep, q) else { return };
@@ -500,7 +500,7 @@ pub fn run(cfg: &Cfg, rep: &mut Report) -> PropMeta {
         if i < 3 { rep.sample(json!({"group": "single", "modulus": q, "const_ratio": m.const_ratio().to_vec()})); }
     });
     // (3) multi-word helpers
-    let n_mw = cfg.n(150_000, 6_000_000) as u64;
+    let n_mw = cfg.n(700_000, 12_000_000) as u64;
     run_cases(cfg, "multi", n_mw, rep, |i, rng, rep| {
         let before = rep.violations.len();
         multi_word(cfg, "multi", i, rep, rng);
